@@ -73,3 +73,39 @@ def natural_margin(x, t):
             m = min(m, np.min(np.abs(x[k] - line)))
     scale = max(1e-300, np.ptp(x))
     return m / scale
+
+
+def natural_int(x):
+    """Natural visibility graph of a whole-numbered, regularly sampled series
+    in exact integer arithmetic, O(n^2): j is visible from i iff the slope
+    (x_j - x_i) / (j - i) exceeds the slope to every sample in between."""
+    n = len(x)
+    X = [int(v) for v in x]
+    assert all(float(a) == float(b) for a, b in zip(X, x))
+    A = np.zeros((n, n), dtype=np.int8)
+    for i in range(n - 1):
+        A[i, i + 1] = A[i + 1, i] = 1
+        num, den = X[i + 1] - X[i], 1          # largest slope so far
+        for j in range(i + 2, n):
+            dn, dd = X[j] - X[i], j - i
+            if dn * den > num * dd:            # strictly above all of them
+                A[i, j] = A[j, i] = 1
+            if dn * den >= num * dd:
+                num, den = dn, dd
+    return A
+
+
+def horizontal_fast(x):
+    """Horizontal visibility graph without missing values, O(n^2)."""
+    n = len(x)
+    A = np.zeros((n, n), dtype=np.int8)
+    for i in range(n - 1):
+        A[i, i + 1] = A[i + 1, i] = 1
+        top = x[i + 1]
+        for j in range(i + 2, n):
+            if top < min(x[i], x[j]):
+                A[i, j] = A[j, i] = 1
+            top = max(top, x[j])
+            if top >= x[i]:
+                break
+    return A
